@@ -165,7 +165,20 @@ pub(crate) fn memo_macro(args: TokenStream, item: TokenStream) -> TokenStream {
             #(
                 #param_ids_blocks
             )*
-            let derived_node_id = ::pico::DerivedNodeId::new(#fn_hash.into(), param_ids);
+            // The signature alone does not identify a function: two memoized functions
+            // in different modules can have textually identical signatures. Mix in the
+            // definition site, which is unique per function.
+            const __MEMO_FN_KEY: u64 = ::pico::macro_fns::fn_site_key(
+                #fn_hash,
+                ::core::concat!(
+                    ::core::module_path!(),
+                    ":",
+                    ::core::line!(),
+                    ":",
+                    ::core::column!()
+                ),
+            );
+            let derived_node_id = ::pico::DerivedNodeId::new(__MEMO_FN_KEY.into(), param_ids);
             let did_recalculate = ::pico::execute_memoized_function(
                 #db_arg,
                 derived_node_id,
